@@ -19,7 +19,7 @@ CHECKS = {
    "Ego poses vary in x, y, z and yaw (no roll/pitch); plans with interpolated lookup are skipped (interpolated ground truth is always returned in the map frame); FP-validation runs are skipped (no metrics; pass/fail covered by C03 in both frames)."),
  "C03": ("primary", "3 (C03)", TECH % "counting / membership invariants on every evaluator step, region check from world truth",
    "After every add_frame_result in every simulated history (all three tasks, both frames, narrow and wide critical filters, FP-labelled ground truth, duplicates and re-evaluation): results = TP + FP by identity, every critical ground truth accounted exactly once, ordinary GT = TP + FN, nothing foreign in the four lists, each TP label-compatible and beating the pass/fail threshold of its GT label, nobody outside the critical region (ego-relative position recomputed from world truth), success/fail counts.",
-   "Pass/fail (plane-distance) score read from the implementation; worlds never contain two ground truths equal in time, label, position and orientation (DynamicObject.__eq__ cannot tell them apart)."),
+   "Pass/fail score of boxes in space (plane distance) read from the implementation, IoU of image ROIs recomputed; worlds never contain two ground truths equal in time, label, position and orientation (DynamicObject.__eq__ cannot tell them apart)."),
  "C16": ("primary, I/O", "3 (C16)", TECH % "simulator is the storage peer: world tables -> real files -> real devkit + loader, compared table by table; reload after evaluator restart",
    "Generated well-formed T4 datasets (1..24 samples, appearing/disappearing instances, categories inside and outside the label table, T4 and nuScenes visibility spellings or none, extra camera/radar sensors, shuffled row order, negated quaternions) are loaded by the real loader for detection / tracking / fp_validation managers and directly for the sensing task, in both frames; frames, timestamps, one object per annotation, uuid, label, attributes, size, point count, visibility, pose in map / ego frame, stored ego->map transform, tracked-path window; a second load (evaluator restart) must give equal frames.",
    "No disk faults: the statement quantifies over well-formed datasets. Label conversion itself (C14) is trusted. Tracked-path positions are judged in the map frame only (the devkit returns global records)."),
@@ -28,19 +28,19 @@ CHECKS = {
    "Three listed findings (known_findings.json KF-C19-1..3) are reported as KNOWN-FINDING; analysis is only run when the evaluator's x/y bounds are scalars (the analyzer's grid takes scalars); empty tables are skipped."),
  "C01": ("secondary: step-conformance clause", "4 (C01)", TECH % "monitor on every matching call the stateful manager makes, predicates from the statement",
    "Every get_object_results call made by the manager in every simulated history is recorded (inputs, output) and judged: one-to-one, nothing foreign, same frame id only, within the matchable radius of the GT label, completeness outside FP validation, unpaired estimates dropped in FP validation (including empty ground truth), caller lists untouched.",
-   "Covers only what flows through the manager: 3D boxes paired by centre distance; the other three matching modes as pairing criterion and 2D objects are not reached (an input-enumeration technique would decide those clauses more strongly)."),
+   "Covers what flows through the manager: 3D boxes and image ROIs (camera worlds) paired by centre distance, plus probe calls of the real matcher with the other pairing criteria on every recorded input; ROI-less 2D objects (classification / traffic lights) are not reached."),
  "C02": ("secondary", "4 (C02)", TECH % "blocking-pair predicate and exact two-stage greedy on every recorded matching call",
    "On the same recorded calls: no matchable pair blocks the assignment in the sense of the statement; when no two candidate scores are within 1e-9 the pairs equal an independent two-stage greedy, in the same order.",
-   "Centre distance recomputed independently; calls with a pair within 1e-6 of the radius are skipped; coverage limit as C01."),
+   "Centre distance recomputed independently (for image ROIs to within 0.75 px: half-pixel centres); IoU of image ROIs computed by the reference, other probe scores read from the implementation; calls with a pair at the radius boundary are skipped; coverage limit as C01."),
  "C04": ("secondary", "4 (C04)", TECH % "independent interpolated-area routine on the observed ranking of every frame score and scene score",
    "For every Map of every frame result and every scene query: ranking by descending confidence (stable), TP iff label-compatible and score beats the label's threshold, AP/APH = interpolated PR area (1e-9), mAP/mAPH = mean of defined, [0,1], APH <= AP; perfect frames give AP 1. The simulation adds pooled multi-frame rankings with duplicates and re-ordered deliveries.",
-   "Scores and heading weight read from the implementation; rankings with confidence ties that matter and decisions within 1e-6 of a threshold are skipped; rankings are not enumerated exhaustively."),
+   "Scores of boxes in space read from the implementation, scores of image ROIs and the heading agreement of flat boxes recomputed; rankings with confidence ties that matter and decisions within 1e-6 of a threshold are skipped; rankings are not enumerated exhaustively."),
  "C08": ("secondary", "4 (C08)", TECH % "cross-invariants between thresholds of one step and between a step and its looser-threshold twin delivery",
    "Within every frame and scene score: for every matching mode with >= 2 thresholds AP/APH/mAP are monotone from stricter to looser. For sampled deliveries a twin evaluator receives the same delivery with the pass/fail threshold loosened x1.5 and x4: TP set grows, FN count does not (ordinary ground truth only).",
    "Twin comparisons are skipped when the twin does not see the same results (history dependence is C13's business)."),
  "C10": ("secondary", "4 (C10)", TECH % "reference predicate with world-truth ego pose on every filter call of the manager / frame result, plus probe calls",
    "Every filter_objects / filter_object_results call made during every step is recorded and judged: output = order-preserving sub-list selected by the reference predicate (ego-relative position recomputed from the object's state and the world's ego pose), a result removed when either side fails, input untouched; the real function is called again for idempotence and with each bound widened (superset).",
-   "3D objects only; GT-less results under a uuid filter are not judged (statement silent); decisions within 1e-6 of a bound skipped."),
+   "3D objects and image ROIs (label / attribute / confidence / uuid criteria only); GT-less results under a uuid filter are not judged (statement silent); decisions within 1e-6 of a bound skipped."),
 }
 NA = json.load(open(os.path.join(HERE, "MANIFEST.json")))["not_applicable"]
 checks = []
